@@ -6,7 +6,9 @@ import StockpylModel.Props.C18
 operation with `nx.descendants` / `nx.ancestors` on the real network).  For EVERY graph (cyclic, incoherent, any fuel) each reported
 node is joined to the start node by a non-empty path of `next` edges (`descendants_sound`, `ancestors_sound`), the start node is never
 reported (`self_not_descendant`, `self_not_ancestor`), and a reported node is a label that occurs in somebody's adjacency list
-(`descendants_mem_succs`).  Completeness (every reachable node is reported) needs the fuel bound `g.length` and is an open target.
+(`descendants_mem_succs`).  On a coherent network the closure is also complete: the fuel `g.length` suffices (`reach_closed`, a counting argument over the
+duplicate-free accumulator), so `descendants` / `ancestors` are exactly graph reachability (`mem_descendants_iff`, `mem_ancestors_iff`)
+and `b` is a descendant of `a` exactly when `a` is an ancestor of `b` (`descendant_iff_ancestor`).
 -/
 namespace Stockpyl.Graph
 
@@ -156,7 +158,181 @@ theorem descendant_has_ancestor_path (g : G) (hc : Coherent g) (l x : Int) (h : 
     Path (predsOf g) x l :=
   (path_succs_iff_path_preds g hc l x).mp (descendants_sound g l x h)
 
+/-- On a coherent network every reported ancestor is a node of the network. -/
+theorem ancestors_are_nodes (g : G) (hc : Coherent g) (l x : Int) (h : x ∈ ancestors g l) : x ∈ labels g := by
+  obtain ⟨y, hy⟩ := (ancestors_sound g l x h).last
+  obtain ⟨n, hn, -, hx⟩ := (mem_predsOf hc.nodup).mp hy
+  obtain ⟨m, hm, hml, -⟩ := hc.pred_ok n hn x hx
+  exact mem_labels.mpr ⟨m, hm, hml⟩
+
+/-- On a coherent network an ancestor and a descendant relation can only hold between nodes joined both ways round:
+if `x` is reported as an ancestor of `l`, a successor path leads from `x` to `l`. -/
+theorem ancestor_has_descendant_path (g : G) (hc : Coherent g) (l x : Int) (h : x ∈ ancestors g l) :
+    Path (succsOf g) x l :=
+  (path_succs_iff_path_preds g hc x l).mpr (ancestors_sound g l x h)
+
 /-- Non-vacuity: on the path 1 → 2 → 3 the descendants of 1 are 2 and 3, and 1 itself is not among them. -/
 example : descendants [⟨1, [], [2]⟩, ⟨2, [1], [3]⟩, ⟨3, [2], []⟩] 1 = [2, 3] := by decide
+example : ancestors [⟨1, [], [2]⟩, ⟨2, [1], [3]⟩, ⟨3, [2], []⟩] 3 = [2, 1] := by decide
+
+/-! ### completeness: on a coherent network the closure reports every reachable node (fuel `g.length` is enough) -/
+
+theorem nodup_eraseDups_aux (n : Nat) : ∀ l : List Int, l.length ≤ n → l.eraseDups.Nodup := by
+  induction n with
+  | zero => intro l hl; have : l = [] := List.length_eq_zero_iff.mp (by omega); subst this; simp
+  | succ n ih =>
+    intro l hl
+    cases l with
+    | nil => simp
+    | cons a as =>
+      rw [List.eraseDups_cons, List.nodup_cons]
+      refine ⟨?_, ih _ ?_⟩
+      · intro h
+        rw [List.mem_eraseDups] at h
+        simpa using (List.mem_filter.mp h).2
+      · have := List.length_filter_le (fun b => !b == a) as
+        simp at hl; omega
+
+theorem nodup_eraseDups (l : List Int) : l.eraseDups.Nodup := nodup_eraseDups_aux l.length l (Nat.le_refl _)
+
+/-- What the closure must satisfy on exit: the successors of the root and of every reported node are reported. -/
+def Closed (next : Int → List Int) (root : Int) (res : List Int) : Prop :=
+  ∀ y, (y ∈ res ∨ y = root) → ∀ m ∈ next y, m ∈ res
+
+theorem reach_closed (next : Int → List Int) (root : Int) (U : List Int) (hU : ∀ y m, m ∈ next y → m ∈ U)
+    (fuel : Nat) (frontier acc : List Int)
+    (hnd : acc.Nodup) (hsub : ∀ x ∈ acc, x ∈ U) (hfuel : U.length ≤ acc.length + fuel)
+    (hinv : ∀ y, (y ∈ acc ∨ y = root) → y ∈ frontier ∨ ∀ m ∈ next y, m ∈ acc) :
+    Closed next root (reach next fuel frontier acc) := by
+  induction fuel generalizing frontier acc with
+  | zero =>
+    have hall : ∀ x ∈ U, x ∈ acc := by
+      intro x hx
+      apply Classical.byContradiction
+      intro hxa
+      have h1 : (x :: acc).Nodup := List.nodup_cons.mpr ⟨hxa, hnd⟩
+      have h2 : (x :: acc) ⊆ U := by
+        intro z hz
+        rcases List.mem_cons.mp hz with rfl | hz
+        · exact hx
+        · exact hsub z hz
+      have := List.Nodup.length_le_of_subset h1 h2
+      simp at this; omega
+    intro y _ m hm
+    simp only [reach]
+    exact hall m (hU y m hm)
+  | succ fuel ih =>
+    unfold reach
+    simp only
+    have hmem : ∀ x, x ∈ ((frontier.flatMap next).filter fun m => !acc.contains m).eraseDups ↔
+        (∃ y ∈ frontier, x ∈ next y) ∧ x ∉ acc := by
+      intro x
+      rw [List.mem_eraseDups, List.mem_filter, List.mem_flatMap]
+      simp
+    generalize hnx : ((frontier.flatMap next).filter fun m => !acc.contains m).eraseDups = nxt at hmem
+    have hnxnd : nxt.Nodup := hnx ▸ nodup_eraseDups _
+    split
+    · next hemp =>
+      have hemp' : nxt = [] := by simpa using hemp
+      intro y hy m hm
+      rcases hinv y hy with hf | hf
+      · apply Classical.byContradiction
+        intro hma
+        have : m ∈ nxt := (hmem m).mpr ⟨⟨y, hf, hm⟩, hma⟩
+        rw [hemp'] at this; simp at this
+      · exact hf m hm
+    · next hne =>
+      have hpos : 0 < nxt.length := by
+        cases nxt with
+        | nil => simp at hne
+        | cons _ _ => simp
+      apply ih
+      · rw [List.nodup_append]
+        refine ⟨hnd, hnxnd, ?_⟩
+        intro a ha b hb hab
+        subst hab
+        exact ((hmem a).mp hb).2 ha
+      · intro x hx
+        rcases List.mem_append.mp hx with h | h
+        · exact hsub x h
+        · obtain ⟨⟨y, _, hy⟩, _⟩ := (hmem x).mp h
+          exact hU y x hy
+      · rw [List.length_append]; omega
+      · intro y hy
+        have hy' : (y ∈ acc ∨ y = root) ∨ y ∈ nxt := by
+          rcases hy with h | h
+          · rcases List.mem_append.mp h with h | h
+            · exact Or.inl (Or.inl h)
+            · exact Or.inr h
+          · exact Or.inl (Or.inr h)
+        rcases hy' with h | h
+        · right
+          intro m hm
+          rcases hinv y h with hf | hf
+          · by_cases hma : m ∈ acc
+            · exact List.mem_append_left _ hma
+            · exact List.mem_append_right _ ((hmem m).mpr ⟨⟨y, hf, hm⟩, hma⟩)
+          · exact List.mem_append_left _ (hf m hm)
+        · exact Or.inl h
+
+theorem Closed.path {next : Int → List Int} {root : Int} {res : List Int} (hc : Closed next root res)
+    {x : Int} (hp : Path next root x) : x ∈ res := by
+  induction hp with
+  | one h => exact hc root (Or.inr rfl) _ h
+  | snoc _ h ih => exact hc _ (Or.inl ih) _ h
+
+/-- Completeness on a coherent network: every node joined to `l` by a non-empty successor path, other than `l` itself, is reported. -/
+theorem descendants_complete (g : G) (hc : Coherent g) (l x : Int) (hp : Path (succsOf g) l x) (hx : x ≠ l) :
+    x ∈ descendants g l := by
+  unfold descendants
+  rw [List.mem_filter]
+  refine ⟨?_, by simpa using hx⟩
+  have hU : ∀ y m, m ∈ succsOf g y → m ∈ labels g := by
+    intro y m hm
+    obtain ⟨n, hn, -, hs⟩ := (mem_succsOf hc.nodup).mp hm
+    obtain ⟨k, hk, hkl, -⟩ := hc.succ_ok n hn m hs
+    exact mem_labels.mpr ⟨k, hk, hkl⟩
+  have := reach_closed (succsOf g) l (labels g) hU g.length [l] [] (by simp) (by simp) (by simp [labels])
+    (by
+      intro y hy
+      rcases hy with h | h
+      · exact absurd h (by simp)
+      · exact Or.inl (by simp [h]))
+  exact this.path hp
+
+theorem ancestors_complete (g : G) (hc : Coherent g) (l x : Int) (hp : Path (predsOf g) l x) (hx : x ≠ l) :
+    x ∈ ancestors g l := by
+  unfold ancestors
+  rw [List.mem_filter]
+  refine ⟨?_, by simpa using hx⟩
+  have hU : ∀ y m, m ∈ predsOf g y → m ∈ labels g := by
+    intro y m hm
+    obtain ⟨n, hn, -, hs⟩ := (mem_predsOf hc.nodup).mp hm
+    obtain ⟨k, hk, hkl, -⟩ := hc.pred_ok n hn m hs
+    exact mem_labels.mpr ⟨k, hk, hkl⟩
+  have := reach_closed (predsOf g) l (labels g) hU g.length [l] [] (by simp) (by simp) (by simp [labels])
+    (by
+      intro y hy
+      rcases hy with h | h
+      · exact absurd h (by simp)
+      · exact Or.inl (by simp [h]))
+  exact this.path hp
+
+/-- The descendants view is exactly graph reachability on a coherent network. -/
+theorem mem_descendants_iff (g : G) (hc : Coherent g) (l x : Int) :
+    x ∈ descendants g l ↔ Path (succsOf g) l x ∧ x ≠ l :=
+  ⟨fun h => ⟨descendants_sound g l x h, fun e => self_not_descendant g l (e ▸ h)⟩,
+   fun h => descendants_complete g hc l x h.1 h.2⟩
+
+theorem mem_ancestors_iff (g : G) (hc : Coherent g) (l x : Int) :
+    x ∈ ancestors g l ↔ Path (predsOf g) l x ∧ x ≠ l :=
+  ⟨fun h => ⟨ancestors_sound g l x h, fun e => self_not_ancestor g l (e ▸ h)⟩,
+   fun h => ancestors_complete g hc l x h.1 h.2⟩
+
+/-- `b` is a descendant of `a` exactly when `a` is an ancestor of `b` (coherent network, any operation history). -/
+theorem descendant_iff_ancestor (g : G) (hc : Coherent g) (a b : Int) :
+    b ∈ descendants g a ↔ a ∈ ancestors g b := by
+  rw [mem_descendants_iff g hc, mem_ancestors_iff g hc, path_succs_iff_path_preds g hc]
+  constructor <;> rintro ⟨h1, h2⟩ <;> exact ⟨h1, fun e => h2 e.symm⟩
 
 end Stockpyl.Graph
